@@ -39,6 +39,13 @@ func runC31(p *Prog, r *Result) {
 	r.Rule("R31e", "Runner.stop evaluates ctx.Err() before any `return false`; stmt and call test stop(ctx) first", 3)
 	r.Rule("R31f", "functions that store context-capturing callbacks in Runner state are re-run by Run with its own context on every path before anything executes", 1)
 
+	r.Rule("R31g", "a Runner the interpreter creates while a program runs receives an exec handler built from the configured kill timeout, handed down from DefaultExecHandler's parameter", 2)
+	checkNestedRunnerTimeout(p, r, "R31g")
+	r.Rule("R31h", "Fd() is not called on a value that can be the runner's stdin unless it is known to be a character device, and the stdin is not handed to os/exec: either makes later reads uninterruptible", 2)
+	checkStdinFd(p, r, "R31h")
+	r.Rule("R31i", "in Run every path from the execution of the node to `return nil` consults ctx.Err(): a cancelled run cannot report success", 3)
+	checkRunReportsCancel(p, r, "R31i")
+
 	runnerT := lookupType(pkg, "Runner")
 	stopFn := lookupFunc(pkg, "Runner.stop")
 	stmtFn := lookupFunc(pkg, "Runner.stmt")
@@ -424,6 +431,51 @@ func runC31(p *Prog, r *Result) {
 						"exec.CommandContext is given something other than the caller's context: cancellation of Run's context does not reach the process")
 				}
 			case *ast.AssignStmt:
+				// cmd := exec.CommandContext(…): WaitDelay is set on every path before the command starts. Without it
+				// Wait keeps reading the output pipes until every orphaned grandchild has closed them, however promptly
+				// the command itself was killed.
+				if len(x.Lhs) == 1 && len(x.Rhs) == 1 {
+					if c, ok := ast.Unparen(x.Rhs[0]).(*ast.CallExpr); ok {
+						if fn := calleeOf(info, c); fn != nil && fn.Pkg() != nil && fn.Pkg().Path() == "os/exec" && fn.Name() == "CommandContext" {
+							if fg == nil {
+								fg = NewFGraph(info, fb.body, nil)
+							}
+							recv := exprString(x.Lhs[0])
+							blk, idx := fg.BlockOf(x)
+							startFirst := blk == nil
+							seen := map[*FBlock]bool{}
+							var walk func(b *FBlock, from int)
+							walk = func(b *FBlock, from int) {
+								for _, m := range b.Nodes[from:] {
+									if as, ok := m.(*ast.AssignStmt); ok {
+										for _, l2 := range as.Lhs {
+											if s2, ok := ast.Unparen(l2).(*ast.SelectorExpr); ok && s2.Sel.Name == "WaitDelay" && exprString(s2.X) == recv {
+												return
+											}
+										}
+									}
+									for _, c2 := range nodeCalls(m) {
+										if s2, ok := c2.Fun.(*ast.SelectorExpr); ok && (s2.Sel.Name == "Start" || s2.Sel.Name == "Run" || s2.Sel.Name == "Output" || s2.Sel.Name == "CombinedOutput") && exprString(s2.X) == recv {
+											startFirst = true
+											return
+										}
+									}
+								}
+								for _, e := range b.Succs {
+									if !seen[e.To] {
+										seen[e.To] = true
+										walk(e.To, 0)
+									}
+								}
+							}
+							if blk != nil {
+								walk(blk, idx+1)
+							}
+							r.Check(!startFirst, "R31c", fb.key+"#"+recv+" started with WaitDelay", x.Pos(), "WaitDelay is assigned on every path before the command starts",
+								"some path starts the command without a WaitDelay: after cancellation the command is killed, but Wait keeps reading its output pipes until every orphaned grandchild has closed them, so Run returns when they exit rather than within the kill timeout")
+						}
+					}
+				}
 				for _, l := range x.Lhs {
 					se, ok := ast.Unparen(l).(*ast.SelectorExpr)
 					if !ok || se.Sel.Name != "Cancel" {
@@ -1147,6 +1199,14 @@ func isParamOfEnclosing(info *types.Info, fb struct {
 }
 
 var c31Controls = []Control{
+	{Name: "run-returns-nil-when-cancelled", Rule: "R31i", WantKey: "Run#after stmts", File: "interp/api.go",
+		Mutate: ctlReplaceAnywhere("if err := ctx.Err(); err != nil && r.exit.ok() {\n\t\tr.exit.fatal(err)\n\t}", "")},
+	{Name: "test-t-calls-fd-on-stdin", Rule: "R31h", WantKey: "f.Fd()", File: "interp/test.go",
+		Mutate: ctlReplaceAnywhere("\t\t\t_, ok := stdinTerminal(r.stdin)\n\t\t\treturn ok\n", "\t\t\tf = r.stdin\n")},
+	{Name: "stdin-terminal-drops-mode-check", Rule: "R31h", WantKey: "stdinTerminal#stdin.Fd()", File: "interp/stdin_os.go",
+		Mutate: ctlReplaceAnywhere("if err != nil || fi.Mode()&os.ModeCharDevice == 0 {", "if err != nil || fi == nil {")},
+	{Name: "enoexec-runner-default-timeout", Rule: "R31g", WantKey: "runScriptENOEXEC#nested New", File: "interp/handler.go",
+		Mutate: ctlReplaceAnywhere("\t\tExecHandler(DefaultExecHandler(killTimeout)),\n", "")},
 	{Name: "expand-config-built-once", Rule: "R31f", WantKey: "Run#rebuilds ecfg", File: "interp/api.go",
 		Mutate: ctlReplace("Runner.Run", "r.fillExpandConfig(ctx)", "if r.ecfg == nil {\n\t\tr.fillExpandConfig(ctx)\n\t}", 0)},
 	{Name: "cstyle-loop-ignores-context", Rule: "R31a", WantKey: "cmd#for loop", File: "interp/runner.go",
